@@ -18,6 +18,18 @@ using rt::win;
 
 static long g_eval = 0, g_over = 0, g_fit = 0;
 static std::vector<std::string> g_fail, g_samples;
+static std::vector<std::string> g_fail_sigs;
+/// keep the first grid point of every distinct (operation, normalised message): thousands of points of one finding
+/// must not crowd out a different one
+static void record_fail(const std::string &id, const std::string &err) {
+  std::string sig = id.substr(0, id.find('|')) + "|";
+  for (char c : err) sig += (c >= '0' && c <= '9') ? '#' : c;
+  for (size_t i = 0; i < g_fail_sigs.size(); ++i)
+    if (g_fail_sigs[i] == sig) return;
+  if (g_fail.size() >= 80) return;
+  g_fail_sigs.push_back(sig);
+  g_fail.push_back(id + "|" + err);
+}
 static std::string g_only;
 static const long MAXV = kFixed ? (long)N : (long)std::numeric_limits<ST>::max();  // the limit: N for a fixed vector
 static const int EXPECT_KIND = kFixed ? 1 : 2;                                       // out_of_range / overflow_error
@@ -144,11 +156,11 @@ static void point(int k, long s, long p, long n, bool shrunk) {
       if (!v.empty()) err = "clear() after the failed call left elements";
     }
     if (err.empty() && vf::L().nfail) err = std::string("ledger: ") + vf::L().fails[0].msg;
-    if (!err.empty() && g_fail.size() < 40) g_fail.push_back(std::string(id) + "|" + err);
+    if (!err.empty()) record_fail(id, err);
     if (g_samples.size() < 5 && exceeds && (g_over % 997) == 1) g_samples.push_back(id);
   }
-  if (E::tracked && vf::L().live() != 0 && g_fail.size() < 40) g_fail.push_back(std::string(id) + "|objects alive after destruction");
-  if (vf::AL().n != 0 && g_fail.size() < 40) g_fail.push_back(std::string(id) + "|allocator blocks outstanding after destruction");
+  if (E::tracked && vf::L().live() != 0) record_fail(id, "objects alive after destruction");
+  if (vf::AL().n != 0) record_fail(id, "allocator blocks outstanding after destruction");
 }
 
 int main(int argc, char **argv) {
